@@ -25,32 +25,33 @@
 (* that effect.check_conflicting_effects reads and updates                    *)
 (*   tasg [t,f,v] / tinc [t,f]      Problem._fluents_assigned/_fluents_inc_dec *)
 (*   aasg [a,t,f,v] / ainc [a,t,f]  the same two fields of every action       *)
-(* ImplAcc decides from the bookkeeping only; ImplClone copies exactly the    *)
-(* fields listed in the constant Copied (the driver passes, per problem       *)
-(* class, the fields the real clone() copies -- see MCModelClone).            *)
+(* ImplAcc decides from the bookkeeping only; ImplClone(ip, copied) copies     *)
+(* exactly the fields in `copied` (MCModelClone lists, per problem class,    *)
+(* the fields the real clone() copies).                                       *)
 (*                                                                            *)
 (* This module contains definitions only (both layers as next-state           *)
 (* functions); MCModelClone is the T1 state machine, ModelCloneEnum emits     *)
 (* edit histories, ModelCloneTrace judges recorded histories of the real code.*)
 EXTENDS Integers, Sequences, FiniteSets, TLC
 
-CONSTANTS Cls,      \* "plain" | "cont" | "htn" | "ma"
-          TimN,     \* timings of timed effects, e.g. {"t1","t2"}
-          DurT,     \* effect timings of the durative action "d", subset of {"s","e"}
-          Copied    \* fields ImplClone copies (subset of AllFields)
+CONSTANTS TimN,     \* timings of timed effects, e.g. {"t1","t2"}
+          DurT      \* effect timings of the durative action "d", subset of {"s","e"}
+\* Operators take the problem class cls ("plain" | "cont" | "htn" | "ma": Problem, ContingentProblem,
+\* HierarchicalProblem, MultiAgentProblem) as a parameter where it matters.
+Classes == {"plain", "cont", "htn", "ma"}
 
 \* ------------------------------------------------------------------ universe
 NumF == {"x"}                 \* numeric scaffold fluent (always declared)
 BoolF == {"b", "n"}           \* "b" scaffold (default false), "n" added by an edit
 Dflt == {"none", "t", "f"}
 ObjN == {"o1", "n"}           \* an object named "n" clashes with the fluent "n"
-ActN == IF Cls = "ma" THEN {"a"} ELSE {"a", "d"}   \* "a" instantaneous, "d" durative
+ActN(cls) == IF cls = "ma" THEN {"a"} ELSE {"a", "d"}   \* "a" instantaneous, "d" durative
 GoalN == {"g1", "g2", "gtrue"}
 IvN == {"p5", "c510", "bad"}  \* "bad" = end - 1: rejected
 TrajN == {"tr1", "tr2", "bad"}\* "bad" = not a trajectory constraint: rejected
 MetN == {"minx", "maxx", "cost"}
 
-Ops == IF Cls = "ma" THEN {"fluent", "object", "action", "goal", "init", "acteff"}
+Ops(cls) == IF cls = "ma" THEN {"fluent", "object", "action", "goal", "init", "acteff"}
        ELSE {"fluent", "object", "action", "goal", "teff", "tgoal", "traj", "metric", "init", "acteff"}
 
 \* effect shapes at the timings T
@@ -68,7 +69,7 @@ NoEdit == Ed("", "", "", "", "", 0, FALSE)
 AllEdits ==
    {Ed("fluent", "n", "", "", d, 0, FALSE) : d \in Dflt}
    \cup {Ed("object", a, "", "", "", 0, FALSE) : a \in ObjN}
-   \cup {Ed("action", a, "", "", "", 0, FALSE) : a \in ActN}
+   \cup {Ed("action", a, "", "", "", 0, FALSE) : a \in {"a", "d"}}
    \cup {Ed("goal", a, "", "", "", 0, FALSE) : a \in GoalN}
    \cup {EdEff("teff", "", s) : s \in EffShapes(TimN)}
    \cup {Ed("tgoal", g, t, "", "", 0, FALSE) : g \in {"g1", "g2"}, t \in IvN}
@@ -78,8 +79,10 @@ AllEdits ==
    \cup {EdEff("acteff", "a", s) : s \in EffShapes({"na"})}
    \cup {EdEff("acteff", "d", s) : s \in EffShapes(DurT)}
 \* a multi-agent problem has no explicit value for an undeclared fluent (its `==` raises on it)
-Edits == {e \in AllEdits : e.op \in Ops /\ (e.op = "acteff" => e.a \in ActN)
-                           /\ ~(Cls = "ma" /\ e.op = "init" /\ e.f = "n")}
+EditsOf(cls) == {e \in AllEdits : e.op \in Ops(cls) /\ (e.op \in {"action", "acteff"} => e.a \in ActN(cls))
+                                  /\ ~(cls = "ma" /\ e.op = "init" /\ e.f = "n")}
+EditsTab == TLCEval([cls \in Classes |-> EditsOf(cls)])
+Edits(cls) == EditsTab[cls]
 
 \* the container an edit touches (used by the generator to emit interacting histories)
 Locus(e) == CASE e.op \in {"fluent", "object"} -> "name:" \o e.a
@@ -151,25 +154,25 @@ SpecClone(p) == p
 
 \* effective initial values: explicit value, else the fluent's default.  Scaffold: "b" has default
 \* false (value id 2); "x" has no default in action-based problems and default 0 in multi-agent ones.
-EffInit(p) ==
+EffInit(cls, p) ==
    LET expl(f) == {r \in p.init : r.f = f}
        dn == {r \in p.fl : r.n = "n" /\ r.d # "none"}
    IN p.init
       \cup (IF expl("b") = {} THEN {[f |-> "b", v |-> 2]} ELSE {})
-      \cup (IF expl("x") = {} /\ Cls = "ma" THEN {[f |-> "x", v |-> 0]} ELSE {})
+      \cup (IF expl("x") = {} /\ cls = "ma" THEN {[f |-> "x", v |-> 0]} ELSE {})
       \cup (IF expl("n") = {} THEN {[f |-> "n", v |-> IF r.d = "t" THEN 1 ELSE 2] : r \in dn} ELSE {})
 Temporal(p) == p.teffs # {} \/ p.tgoals # {} \/ "d" \in p.acts
 \* the time-model part of the problem kind
 KindTM(p) == Temporal(p) /\ p.tm
 \* `==` of two problems: contents as sets, effective initial values, kind
-AbsEq(p, q) ==
+AbsEq(cls, p, q) ==
    /\ {r.n : r \in p.fl} = {r.n : r \in q.fl}
    /\ p.objs = q.objs /\ p.acts = q.acts /\ p.aeffs = q.aeffs /\ p.goals = q.goals
    /\ p.teffs = q.teffs /\ p.tgoals = q.tgoals /\ p.traj = q.traj /\ p.mets = q.mets
-   /\ EffInit(p) = EffInit(q)
+   /\ EffInit(cls, p) = EffInit(cls, q)
    /\ KindTM(p) = KindTM(q)
 \* multi-agent `==` evaluates every declared fluent's initial value and raises when one is missing
-EqDefined(p) == Cls # "ma" \/ \A r \in p.fl : r.d # "none" \/ \E i \in p.init : i.f = r.n
+EqDefined(cls, p) == cls # "ma" \/ \A r \in p.fl : r.d # "none" \/ \E i \in p.init : i.f = r.n
 
 \* ------------------------------------------------------------ IMPL LAYER
 BookFields == <<"tasg", "tinc", "aasg", "ainc">>
@@ -207,10 +210,10 @@ ImplApply(ip, e) ==
 ImplStep(ip, e) == IF ImplAcc(ip, e) = "" THEN ImplApply(ip, e) ELSE ip
 \* clone(): a fresh problem (constructed without initial defaults, continuous time) receiving the
 \* fields in Copied
-ImplClone(ip) ==
+ImplClone(ip, copied) ==
    LET blank == EmptyI("none", FALSE)
-       r == [f \in DOMAIN blank |-> IF f \in Copied THEN ip[f] ELSE blank[f]]
-   IN IF "mdef" \in Copied \/ "cost" \notin r.mets THEN r
+       r == [f \in DOMAIN blank |-> IF f \in copied THEN ip[f] ELSE blank[f]]
+   IN IF "mdef" \in copied \/ "cost" \notin r.mets THEN r
       ELSE [r EXCEPT !.mets = (@ \ {"cost"}) \cup {"cost_nd"}]
 \* the bookkeeping the content determines (refinement mapping, checked as an invariant)
 BookOf(p) ==
@@ -218,5 +221,5 @@ BookOf(p) ==
     tinc |-> {[t |-> x.t, f |-> x.f] : x \in {y \in p.teffs : Book(y) /\ y.k # "asg"}},
     aasg |-> {[a |-> x.a, t |-> x.t, f |-> x.f, v |-> x.v] : x \in {y \in p.aeffs : Book(y) /\ y.k = "asg"}},
     ainc |-> {[a |-> x.a, t |-> x.t, f |-> x.f] : x \in {y \in p.aeffs : Book(y) /\ y.k # "asg"}}]
-ImplEq(ip, iq) == AbsEq(ip, iq)
+ImplEq(cls, ip, iq) == AbsEq(cls, ip, iq)
 =============================================================================
